@@ -5,7 +5,7 @@ import importlib
 TABLE = {
     "C13": ("dsim.c13", 8_000, 16_000),
     "C12": ("dsim.c12", 120_000, 3_000_000),
-    "C16": ("dsim.c16", 60_000, 6_000_000),
+    "C16": ("dsim.c16", 60_000, 4_000_000),
     "C05": ("dsim.c05", 60_000, 3_000_000),
     "C11": ("dsim.c11", 60_000, 6_000_000),
 }
